@@ -95,7 +95,7 @@ def cop(op):
                                                copt(c, cindexdef), copt(op.get('delete'), cstr))
     elif o == 'clear_table': body = '(OClearTable %s)' % t
     elif o == 'put': body = '(OPut %s %s %s %s %s)' % (t, citem(op.get('item')), cond, names, vals)
-    elif o == 'get': body = '(OGet %s %s)' % (t, citem(op.get('key')))
+    elif o == 'get': body = '(OGet %s %s %s %s)' % (t, citem(op.get('key')), names, cstr(op.get('projection') or ''))
     elif o == 'update':
         body = '(OUpdate %s %s %s %s %s %s %s)' % (t, citem(op.get('key')), cstr(op['expr']), cond, names, vals,
                                                    cbool(op.get('rvoccf') == 'ALL_OLD'))
@@ -113,7 +113,9 @@ def cop(op):
         body = '(OBatchWrite %s)' % clist(['(%s, %s)' % (cstr(k), clist([cwreq(r) for r in rq[k]])) for k in sorted(rq, key=b)])
     elif o == 'batch_get':
         rq = op['requests']
-        body = '(OBatchGet %s)' % clist(['(%s, %s)' % (cstr(k), clist([citem(r) for r in rq[k]])) for k in sorted(rq, key=b)])
+        opts = op.get('opts') or {}
+        body = '(OBatchGet %s %s)' % (clist(['(%s, %s)' % (cstr(k), clist([citem(r) for r in rq[k]])) for k in sorted(rq, key=b)]),
+                                      clist(['(%s, (%s, %s))' % (cstr(k), cnames(opts[k].get('names') or {}), cstr(opts[k].get('projection') or '')) for k in sorted(opts, key=b)]))
     elif o == 'transact': body = 'OTransact'
     elif o == 'emulate_failure': body = '(OEmulateFailure %s)' % cstr(op['cond'])
     elif o == 'activate_force_failure': body = 'OActivateForce'
